@@ -4,7 +4,7 @@
 # (/tmp/seedrun: a worktree of /repo HEAD + a copy of the harness pointing at it), so /repo is not
 # touched and other work can continue.  Writes /verif/seeded/<name>/detect.json.
 set -u
-SCR=/tmp/seedrun
+SCR=${SCR:-/tmp/seedrun}
 HEAD=$(git -C /repo rev-parse HEAD)
 mkdir -p $SCR
 if [ ! -d $SCR/repo ]; then git -C /repo worktree add -q --detach $SCR/repo "$HEAD" || exit 2; fi
